@@ -100,12 +100,14 @@ class Check:
       else:
         new.append(v)
     replay_paths = []
+    no_ev = bool(os.environ.get('VERIF_NO_EVIDENCE'))
     os.makedirs(os.path.join(VERIF, 'replays'), exist_ok=True)
     for v in new:
       h = hashlib.sha1((v['rule'] + '|' + v['key']).encode()).hexdigest()[:10]
       rp = os.path.join(VERIF, 'replays', f'{self.pid}-{h}.json')
-      with open(rp, 'w') as f:
-        json.dump(dict(property=self.pid, **v), f, indent=1, ensure_ascii=False)
+      if not no_ev:
+        with open(rp, 'w') as f:
+          json.dump(dict(property=self.pid, **v), f, indent=1, ensure_ascii=False)
       replay_paths.append(rp)
       print(f"{v['loc'] or '?'}: [{v['rule']}] {v['key']}: {v['detail']}")
       if v.get('expected') is not None or v.get('found') is not None:
@@ -146,9 +148,10 @@ class Check:
         wall_s=round(time.time() - self.t0, 3),
         violations=len(new),
     )
-    os.makedirs(os.path.join(VERIF, 'evidence'), exist_ok=True)
-    with open(os.path.join(VERIF, 'evidence', f'{self.pid}.json'), 'w') as f:
-      json.dump(ev, f, indent=1, ensure_ascii=False, default=str)
+    if not no_ev:
+      os.makedirs(os.path.join(VERIF, 'evidence'), exist_ok=True)
+      with open(os.path.join(VERIF, 'evidence', f'{self.pid}.json'), 'w') as f:
+        json.dump(ev, f, indent=1, ensure_ascii=False, default=str)
     held = sum(1 for i in self.instances if i['status'] == 'holds')
     print(f'{self.pid} [{self.tier}]: {len(self.instances)} rule instances over {len(rules)} rules, '
           f'{held} hold, {len(self.violations) - len(new)} known finding(s), {len(new)} violation(s); '
